@@ -262,6 +262,9 @@ func (ex *Exec) opaqueCall(fr *Frame, st *State, fn *ssa.Function, args []Val, p
 	}
 	r := ex.freshVal("res."+fn.Name(), fn.Signature.Results())
 	ex.assumeResultFacts(fr, st, fn, r)
+	if top || len(keys) > 0 {
+		ex.reassumeRootInvs(st)
+	}
 	return r
 }
 
